@@ -1,6 +1,8 @@
 package absint
 
 import (
+	"fmt"
+	"os"
 	"go/types"
 	"math/big"
 
@@ -73,7 +75,11 @@ func (it *Interp) leaf(fr *Frame, x *ssa.Call, fn *ssa.Function, args []Value) V
 		}
 		switch name {
 		case "Mul":
-			setMont(a.Mul(b))
+			if r := it.expLeaf(f, args, 1, 2); r != nil {
+				setMont(r)
+			} else {
+				setMont(a.Mul(b))
+			}
 		case "Add":
 			setMont(a.Add(b))
 		case "Sub":
@@ -85,7 +91,11 @@ func (it *Interp) leaf(fr *Frame, x *ssa.Call, fn *ssa.Function, args []Value) V
 			return fail(e1)
 		}
 		if name == "Square" {
-			setMont(a.Mul(a))
+			if r := it.expLeaf(f, args, 1, 1); r != nil {
+				setMont(r)
+			} else {
+				setMont(a.Mul(a))
+			}
 		} else {
 			setMont(a.Neg())
 		}
@@ -290,4 +300,105 @@ func (it *Interp) bigModel(fr *Frame, x *ssa.Call, key string, args []Value) (Va
 		}
 	}
 	return nil, false
+}
+
+
+// expLeaf: the product of operands i and j of a Fiat Mul/Square as one formal power (fexp.go), when both are powers
+// of one base with a symbolic exponent.  The operands are read with their look-up tests completed.
+func (it *Interp) expLeaf(f *Field, args []Value, i, j int) *Poly {
+	rd := func(k int) *Poly {
+		c := ptrCell(args[k])
+		if c == nil {
+			return nil
+		}
+		t, ok := it.readInt(c)
+		if !ok {
+			return nil
+		}
+		t = it.ApplyTerm(t)
+		if a := t.SingleAtom(); a != nil && a.Kind == IMont && a.F == f {
+			return completePoly(a.V)
+		}
+		if len(t.mons) < 2 || len(t.mons) > 64 {
+			return nil
+		}
+		t = CompleteFamilies(t)
+		if !provenBelow(t, f.M) {
+			return nil
+		}
+		return EmbTerm(f, t).ScaleC(f.RInv)
+	}
+	a := rd(i)
+	if a == nil {
+		return nil
+	}
+	b := a
+	if j != i {
+		if b = rd(j); b == nil {
+			return nil
+		}
+	}
+	// only when a symbolic exponent or a look-up is involved
+	sym := false
+	for _, p := range []*Poly{a, b} {
+		for _, m := range p.mons {
+			for _, x := range m.vars {
+				if x.v.Kind == FExp || x.v.Kind == FPV {
+					sym = true
+				}
+			}
+		}
+	}
+	if !sym {
+		return nil
+	}
+	r := expMul(a, b)
+	if r == nil && os.Getenv("SVDEBUGEXP") != "" {
+		var base *Poly
+		_, oka := asExp(a, &base)
+		_, okb := asExp(b, &base)
+		fmt.Fprintf(os.Stderr, "EXPLEAF fail: a(%d terms, exp=%v)=%s | b(%d terms, exp=%v)=%s\n", a.NumTerms(), oka, clip(a.String(), 300), b.NumTerms(), okb, clip(b.String(), 300))
+	}
+	return r
+}
+
+
+// completePoly is CompleteFamilies for the predicate variables of a polynomial.
+func completePoly(p *Poly) *Poly {
+	tt := TInt(0)
+	seen := map[*PAtom]bool{}
+	for _, m := range p.mons {
+		for _, x := range m.vars {
+			if x.v.Kind == FPV && !seen[x.v.P] {
+				seen[x.v.P] = true
+				tt = tt.Add(TPred(x.v.P))
+			}
+		}
+	}
+	if len(seen) < 2 {
+		return p
+	}
+	var sub *Subst
+	for _, f := range eqFamilies(tt) {
+		if !f.d.Lo.IsInt64() || !f.d.Hi.IsInt64() {
+			continue
+		}
+		lo, hi := f.d.Lo.Int64(), f.d.Hi.Int64()
+		if hi-lo < 1 || hi-lo > 31 || f.atoms[hi] == nil {
+			continue
+		}
+		rest := TInt(1)
+		for v := lo; v < hi; v++ {
+			rest = rest.Sub(EQZ(TInt(v).Sub(TAtom(f.d))))
+		}
+		if sub == nil {
+			sub = NewSubst(nil, false)
+			sub.PBind = map[*PAtom]*Term{}
+		}
+		sub.PBind[f.atoms[hi]] = rest
+	}
+	if sub == nil {
+		return p
+	}
+	return sub.Poly(p)
 }
